@@ -181,6 +181,31 @@ func (x *c44Run) same(op, shape string, mErr, nErr error) bool {
 
 func (x *c44Run) pickName() string { return c44Pool[x.rng.IntN(len(c44Pool))] }
 
+// respell: one time in four, another spelling of the same name (both implementations clean
+// names lexically: no leading slash, doubled slashes, "." segments, a ".." detour through a
+// name that need not exist, a trailing slash).
+func (x *c44Run) respell(name string) string {
+	if x.rng.IntN(4) != 0 || name == "/" {
+		return name
+	}
+	x.r.Event("names_spelled_non_canonically", 1)
+	switch x.rng.IntN(6) {
+	case 0:
+		return name[1:]
+	case 1:
+		return "/" + name
+	case 2:
+		return "/." + name
+	case 3:
+		return "/u/.." + name
+	case 4:
+		i := strings.LastIndex(name, "/")
+		return name[:i] + "/." + name[i:]
+	default:
+		return name + "/"
+	}
+}
+
 func c44FlagString(flag int) string {
 	s := []string{"O_RDONLY", "O_WRONLY", "O_RDWR"}[flag&3]
 	for _, f := range []struct {
@@ -594,7 +619,7 @@ func (x *c44Run) opReaddir() {
 }
 
 func (x *c44Run) opMkdir() {
-	name := x.pickName()
+	name := x.respell(x.pickName())
 	kind := x.kind(name)
 	mErr := x.mem.Mkdir(vfCtx, name, 0777)
 	nErr := x.nat.Mkdir(vfCtx, name, 0777)
@@ -606,7 +631,7 @@ func (x *c44Run) opMkdir() {
 var c44RootSpellings = []string{"/", "", ".", "/.", "//", "/a/..", "/../"}
 
 func (x *c44Run) opRemoveAll() {
-	name := x.pickName()
+	name := x.respell(x.pickName())
 	if x.rng.IntN(12) == 0 {
 		name = c44RootSpellings[x.rng.IntN(len(c44RootSpellings))]
 	}
@@ -633,7 +658,7 @@ func (x *c44Run) opRemoveAll() {
 }
 
 func (x *c44Run) opRename() {
-	oldName, newName := x.pickName(), x.pickName()
+	oldName, newName := x.respell(x.pickName()), x.respell(x.pickName())
 	switch x.rng.IntN(12) {
 	case 0:
 		oldName = c44RootSpellings[x.rng.IntN(len(c44RootSpellings))]
